@@ -62,3 +62,16 @@ class ZeroOp(LinearOperator):
             return (torch.zeros_like(x),)
         else:
             return (torch.tensor(0),)
+
+    @property
+    def H(self) -> LinearOperator:  # noqa: N802
+        """Adjoint of the zero operator, which is the zero operator itself."""
+        return self
+
+    def __mul__(self, other: torch.Tensor | complex) -> LinearOperator:
+        """Zero operator times a scalar or tensor: 0 * c = 0 (a scalar zero must not be passed to other operators)."""
+        return super().__mul__(other) if self.keep_shape else self
+
+    def __rmul__(self, other: torch.Tensor | complex) -> LinearOperator:
+        """Scalar or tensor times the zero operator: c * 0 = 0 (a scalar zero must not be passed to other operators)."""
+        return super().__rmul__(other) if self.keep_shape else self
